@@ -229,6 +229,45 @@ DRV_OP(OpSdUnary, "sd.unary") {
   return out;
 }
 
+// lazy product of lazy power sets, far too large to enumerate: only size-related observations
+DRV_OP(OpSdHuge, "sd.huge") {
+  std::vector<StructuredData> factors;
+  std::vector<StructuredData> least;
+  std::vector<StructuredData> greatest;
+  for (const auto& k : a.at("bases")) {
+    std::vector<int32_t> base;
+    for (int32_t i = 1; i <= k.get<int32_t>(); ++i) {
+      base.push_back(i);
+    }
+    const auto baseSet = Factory::SetV(base);
+    factors.push_back(Factory::Boolean(baseSet));
+    least.push_back(Factory::EmptySet());
+    greatest.push_back(baseSet);
+  }
+  const auto value = Factory::Decartian(factors);
+  json out = json::object();
+  out["card"] = value.B().Cardinality();
+  out["isempty"] = value.B().IsEmpty();
+  out["eq_empty"] = value == Factory::EmptySet();
+  out["lt_empty"] = value < Factory::EmptySet();
+  out["cmp_empty"] = drv::CmpName(value.Compare(Factory::EmptySet()));
+  const auto low = Factory::Tuple(least);
+  const auto high = Factory::Tuple(greatest);
+  out["contains_least"] = value.B().Contains(low);
+  out["contains_greatest"] = value.B().Contains(high);
+  const auto single = Factory::Singleton(low);
+  out["single_subset"] = single.B().IsSubsetOrEq(value.B());
+  out["lt_single"] = value < single;      // a one-element set is smaller than this one
+  out["single_lt"] = single < value;
+  long n = 0;
+  for (auto it = value.B().begin(); it != value.B().end() && n < 3; ++it) {
+    ++n;
+  }
+  out["first_elements"] = n;
+  out["bool_card"] = Factory::Boolean(Factory::SetV({ 1, 2, 3 })).B().Cardinality();
+  return out;
+}
+
 DRV_OP(OpSdCopy, "sd.copy") {
   Pool()[a.at("to").get<std::string>()] = Pool().at(a.at("from").get<std::string>());
   return json::object();
